@@ -168,6 +168,15 @@ func (w *World) ApplyEnv(ctx sdk.Context, env string) error {
 		return nil
 	case "genesis-roundtrip":
 		return w.applyGenesisEnv(ctx, env)
+	case "hyp-synthetic":
+		if w.App.BankKeeper.GetSupply(ctx, w.DenomSyn).Amount.IsPositive() {
+			return fmt.Errorf("synthetic token already created")
+		}
+		id, err := w.createSynthetic(ctx)
+		if err == nil && id != w.TokenSyn {
+			err = fmt.Errorf("synthetic token id %s differs from the one learned on W0 %s", id, w.TokenSyn)
+		}
+		return err
 	case "seed-stats-int64":
 		// totals just above MaxInt64 on (IBC channel-1 -> INTERNAL noble, uusdc): a range later arithmetic or
 		// conversions may mishandle although every single transfer amount is small
